@@ -327,7 +327,18 @@ def monitor_c10(ctx):
     d = _run('c10_locals', 'c10_locals', [{'scenarios': SC}],
              'ast_names lambdas with statement bodies that bind no parameter at the call (declared without parameters / called with zero '
              'arguments) and assign: the locals are gone after the call, from top level and from inside another lambda call, on return and on raise')
-    return _merge('c10', [a, b, c, d])
+    RE = [{'src': 'x = 1; r = sub("y = 2; y"); [x, r]', 'expect': '[1, 2]', 'outer_after': {'x': 1, 'y': None}, 'inner_after': {'y': 2, 'x': None}},
+          {'src': 'r = sub("z"); z2 = 3; [r, h]', 'names': {'h': 7}, 'inner': {'z': 4}, 'expect': '[4, 7]', 'outer_after': {'z2': 3, 'h': 7, 'z': None},
+           'inner_after': {'z': 4, 'z2': None}},
+          {'src': 'apply(p => [sub("1 + 1"), p], 5)', 'expect': '[2, 5]'},
+          {'src': 'map([1, 2], v => [sub("w = 9; w"), v])', 'expect': '[[9, 1], [9, 2]]', 'outer_after': {'w': None}, 'inner_after': {'w': 9}},
+          {'src': 'a = 1; sub("a = 2"); sub("a"); a', 'expect': '1', 'outer_after': {'a': 1}, 'inner_after': {'a': 2}},
+          {'src': 'try_apply(v => sub("1 / 0"), 0); k = 1; k', 'expect': '1', 'outer_after': {'k': 1}, 'inner_after': {'k': None}},
+          {'src': 'f = v => v + n; n = 10; sub("n = 1"); f(1)', 'expect': '11', 'outer_after': {'n': 10}, 'inner_after': {'n': 1}}]
+    e = _run('c10_reenter', 'c10_reenter', [{'scenarios': RE}],
+             'a host callable that evaluates another program on the same SqParser with another mapping while the outer evaluation runs: '
+             'separate scope stacks (outer assignments / parameters / host names unaffected, inner ones land in the inner mapping)')
+    return _merge('c10', [a, b, c, d, e])
 
 
 # ------------------------------------------------------------------ C11 / C17
